@@ -38,6 +38,21 @@ def other_consumers(yp, qname, args, nq, k=0, limit=150):
     out['bounded'] = {'answers': semcheck.canon_answers([r[0] for r in res[:limit]]), 'truth': [r[1] for r in res[:limit]], 'count': len(res), 'end': end,
                       'limit': L, 'reclimit': [base, sys.getrecursionlimit()], 'leftover': [i for i in range(nq) if T.vars[i]._is_bound]}
     sys.setrecursionlimit(base)
+    # ---- evaluate_bounded with its default recursion limit (lower than the limit in force: the search may legitimately be cut short,
+    # silently - the result is then a prefix of the answers)
+    T = terms.ImplTerms([yp], nq)
+    objs = [T.build(a) for a in args]
+    end = 'done'
+    res = []
+    try:
+        res = yp.evaluate_bounded(yp.query(qname, objs), lambda x: [terms.term_obs(T.read(T.vars[i])) for i in range(nq)])
+    except BaseException as e:
+        if type(e).__name__ in ('CaseTimeout', 'QueryBudget', 'KeyboardInterrupt'):
+            raise
+        end = 'raised %s' % type(e).__name__
+    out['bounded_default'] = {'answers': semcheck.canon_answers(res[:limit]), 'count': len(res), 'end': end, 'reclimit': [base, sys.getrecursionlimit()]}
+    sys.setrecursionlimit(base)
+    del res
     # ---- list()
     T = terms.ImplTerms([yp], nq)
     objs = [T.build(a) for a in args]
@@ -83,6 +98,15 @@ def mismatch(plain, cons, limit=150):
     count, end == 'done', optionally truth = the flags yielded at the top level)"""
     if not cons:
         return None
+    c = cons.get('bounded_default')
+    if c:
+        what = 'evaluate_bounded with its default recursion limit'
+        if c['end'] != 'done':
+            return '%s %s' % (what, c['end'])
+        if c['reclimit'][0] != c['reclimit'][1]:
+            return '%s left the interpreter\'s recursion limit changed (%d before, %d after)' % (what, c['reclimit'][0], c['reclimit'][1])
+        if c['count'] > plain['count'] or c['answers'] != plain['answers'][:len(c['answers'])]:
+            return '%s: its %d answers are not a prefix of the %d answers of plain iteration' % (what, c['count'], plain['count'])
     for name in ('bounded', 'list', 'next'):
         c = cons[name]
         what = {'bounded': 'evaluate_bounded(recursion_limit=%s)' % c.get('limit'), 'list': 'list(query)', 'next': 'next(query) then close()'}[name]
